@@ -179,6 +179,10 @@ class RuleContext:
         prog0 = getattr(self, "_base_prog", None) or self.prog
         outer_base = getattr(self, "_base_prog", None)
         self._base_prog = prog0
+        # the tree as written left the group undecided (no finding, only unrecognised constructs): a normal form on which the group
+        # is fully decided with a finding reports that finding - the normal forms are behaviour-preserving, so it is one of the tree
+        undecided0 = not any(o.status == "violated" for o in kept[0])
+        decided_v = None
         for v in VARIANTS:
             try:
                 vp = variant_program(prog0, v, mods)
@@ -198,8 +202,15 @@ class RuleContext:
                                   f"normal form '{v}' (sa/normalize.py)")
                 self.normal_forms_used = getattr(self, "normal_forms_used", 0) + 1
                 return res_v
+            if undecided0 and decided_v is None and len(self.group_errors) == sn[2] \
+                    and not any(o.status == "undecidable" for o in self.obligations[sn[0]:]):
+                decided_v = (self.obligations[sn[0]:], set(self._seen_keys), [], self.floors[sn[3]:], self.exhaustive_spaces[sn[4]:],
+                             self.notes[sn[5]:] + [f"{getattr(fn, '__name__', 'rule group')}: undecided on the tree as written, decided on its "
+                                                   f"normal form '{v}' (sa/normalize.py)"], self.duplicates)
         self._base_prog = outer_base
         self._restore(sn)
+        if decided_v is not None:
+            kept = decided_v
         self.obligations.extend(kept[0])
         self._seen_keys = kept[1]
         self.group_errors.extend(kept[2])
